@@ -42,6 +42,8 @@ def run(ck, ctx):
                       "RespValue variant the first byte written is that variant's RESP marker (`+` simple string, `-` error, `:` integer, "
                       "`$` bulk string - null included, `*` array - null included); a null array written as `$-1` decodes to a null bulk "
                       "string, so the emitted value does not decode back to itself")
+    from . import bounds as _bounds
+    ck.rule("R15.11", _bounds.TEXT % "the RESP decoders and the connection's hand-written GET/SET recognisers")
     ck.nd("prefix-stability and encode/decode identity for all values (needs execution or proof)")
     ck.assume("a dominating comparison against the input length is taken as a bound (its strength is not proven)")
     for cfg in ctx.configs:
@@ -57,6 +59,8 @@ def run(ck, ctx):
         prefix_rule(ck, prog, cfg, "R15.5")
         _r158(ck, prog, cfg)
         _r1510(ck, prog, cfg)
+        _bounds.rule(ck, prog, cfg, "R15.11", ("src/redis/resp.rs", "src/redis/resp_optimized.rs", "src/production/connection_optimized.rs"),
+                     "a frame that is split by the network right there (or a malformed one)", floor=12, tag=_tag(cfg))
     _r156(ck, ctx)
 
 
